@@ -255,7 +255,21 @@ func genStream(r *rand.Rand, pf erpc.ProtoFunc, callName, pushName string, lim u
 			return append(append([]byte(nil), all...), f...), "gzip-bomb"
 		}
 	}
-	if (*mode == "thriftbin" || *mode == "thriftstruct") && r.Intn(15) == 0 {
+	if pipeCarried(*mode) && r.Intn(9) == 0 {
+		// a frame within the limit whose transfer pipe names a shipped filter (gzip at any level,
+		// md5) and whose filtered payload carries a forged trailer / header field: the announced
+		// size is the sender's to choose, the receiver must not size anything from it
+		if f, variant, filter := forgedFrame(r, pf, callName, lim); f != nil && len(f) < int(lim) {
+			st.Count("forged:" + variant)
+			st.Count("forged-filter:" + filter)
+			z := append(append([]byte(nil), all[:len(all)*r.Intn(2)]...), f...)
+			if r.Intn(3) == 0 && len(frames) > 0 { // something valid behind it
+				z = append(z, frames[0]...)
+			}
+			return z, "forged-trailer"
+		}
+	}
+	if (*mode == "thriftbin" || *mode == "thriftstruct") && r.Intn(40) == 0 {
 		// a THeader frame that selects the COMPACT inner protocol and announces a 64 MiB method name
 		// (frames packed by erpc itself always use the binary inner protocol). 2 GiB can be announced
 		// just as well (26 bytes in, 4 GiB allocated, minutes of copying): 64 MiB keeps the run short.
@@ -340,13 +354,19 @@ func main() {
 		runNoPool(cfg)
 		return
 	}
+	if *mode == "xfer" {
+		runXfer(cfg)
+		return
+	}
 	r := cfg.Rng
 	// the run log (with message details) is part of the receive path: keep it ON, discard the text
 	erpc.SetLoggerOutputter(discardLog{})
 	erpc.SetLoggerLevel("TRACE")
 	RegTestFilters()
+	regShipped()
 	st := NewStats("C06", cfg)
-	st.Rule = "hostile streams per protocol (" + *mode + "): valid frame sequences, truncation at a random offset, byte flips, rewritten length fields, an announced size beyond the read limit with no payload, an endless header line (http), %FF escapes, random bytes; each fed to a fresh live server session over an in-memory conn; distinct by stream bytes; non-trivial = non-empty stream"
+	maxDelta := map[string]uint64{}
+	st.Rule = "hostile streams per protocol (" + *mode + "): valid frame sequences, truncation at a random offset, byte flips, rewritten length fields, an announced size beyond the read limit with no payload, an endless header line (http), %FF escapes, a forged trailer / header field behind every shipped transfer filter (gzip levels, md5), random bytes; each fed to a fresh live server session over an in-memory conn; distinct by stream bytes; non-trivial = non-empty stream"
 	srv := erpc.NewPeer(erpc.PeerConfig{PrintDetail: true, CountTime: true}, prePlugin{})
 	callName := srv.RouteCallFunc(echo)
 	pushName := srv.RoutePushFunc(note)
@@ -385,7 +405,7 @@ func main() {
 	distinct := DistinctSet{}
 	var ms runtime.MemStats
 	for i := 0; i < cfg.N; i++ {
-		if len(st.OracleFailures) >= 6 && !*noStop {
+		if newFailures(st) >= 6 && !*noStop {
 			st.Count("stopped-early-after-failures")
 			break // every failing case costs its watchdogs; six precise failures are enough
 		}
@@ -432,9 +452,16 @@ func main() {
 			st.Fail(i, "serve-failed", "ServeConn refused an in-memory conn", human)
 			continue
 		}
+		// the recorded thrift finding makes the library allocate and clear 128 MiB per instance: on a
+		// loaded machine that alone can take seconds, so that class gets more patience (the session
+		// must still end)
+		patience := 10 * time.Second
+		if class == "thrift-compact-name" {
+			patience = 40 * time.Second
+		}
 		cc.Write(s)
-		if !cc.WaitPeerIdle(10 * time.Second) {
-			st.Fail(i, "reader-stuck-mid-stream", "server neither consumed the input nor disconnected within 10 s", human)
+		if !cc.WaitPeerIdle(patience) {
+			st.Fail(i, "reader-stuck-mid-stream", fmt.Sprintf("server neither consumed the input nor disconnected within %v", patience), human)
 		}
 		erpc.VerifWaitHandlers(sess)
 		// let an asynchronous Close (unsupported type) or disconnect settle
@@ -452,7 +479,7 @@ func main() {
 		}
 		// input exhausted: the session must end cleanly
 		cc.CloseWrite()
-		ended := WaitUntil(10*time.Second, func() bool {
+		ended := WaitUntil(patience, func() bool {
 			select {
 			case <-sess.CloseNotify():
 				return sc.IsClosed()
@@ -461,7 +488,7 @@ func main() {
 			}
 		})
 		if !ended {
-			st.Fail(i, "wedged-after-input", "session did not end within 10 s after the input was exhausted (reader or a waiter is blocked)", human)
+			st.Fail(i, "wedged-after-input", fmt.Sprintf("session did not end within %v after the input was exhausted (reader or a waiter is blocked)", patience), human)
 		}
 		cc.Close()
 		maxAlloc := utils.VerifMaxAlloc()
@@ -474,12 +501,18 @@ func main() {
 		if maxAlloc > bound {
 			st.Fail(i, "over-allocation", fmt.Sprintf("a buffer of %d bytes was requested under a read limit of %d", maxAlloc, lim), human)
 		}
-		if delta > 64*uint64(int(lim)+len(s))+(8<<20) {
+		if class != "forged-trailer" && delta > 64*uint64(int(lim)+len(s))+(8<<20) {
 			key := "over-allocation"
 			if class == "thrift-compact-name" {
 				key = "thrift-compact-announced-name" // the thrift library's own allocation, see known_findings.txt
 			}
 			st.Fail(i, key, fmt.Sprintf("%d bytes allocated while reading %d input bytes under a read limit of %d", delta, len(s), lim), human)
+		}
+		if delta > maxDelta[class] {
+			maxDelta[class] = delta
+		}
+		if class == "forged-trailer" && delta > forgedAllocBound(lim, len(s)) {
+			st.Fail(i, "over-allocation", fmt.Sprintf("%d bytes allocated while a frame of %d bytes with a forged filter trailer was received under a read limit of %d (the receiver sized a buffer from what the payload announces)", delta, len(s), lim), human)
 		}
 		if class == "oversize-announced" && !discBeforeEOF {
 			st.Fail(i, "oversize-not-refused", "a frame announcing more than the read limit did not disconnect the session before its payload arrived", human)
@@ -514,7 +547,20 @@ func main() {
 	}
 	st.Evaluations = cfg.N
 	st.DistinctNontrivial = len(distinct)
+	st.Extra = map[string]interface{}{"max_totalalloc_delta_" + *mode: maxDelta}
 	st.Write(cfg, w)
+}
+
+// newFailures counts the oracle failures that are not the recorded finding of the thrift modes
+// (that class fails on every instance by design and must not use up the early-stop budget)
+func newFailures(st *Stats) int {
+	n := 0
+	for _, f := range st.OracleFailures {
+		if f.Key != "thrift-compact-announced-name" {
+			n++
+		}
+	}
+	return n
 }
 
 func min(a, b int) int {
